@@ -3,6 +3,7 @@
 package schema
 
 import (
+	"strconv"
 	"fmt"
 	"sort"
 	"strings"
@@ -69,6 +70,10 @@ type TypeRef struct {
 	Posix    []string // openconfig-extensions posix-pattern statements (the file must import that module as ocx)
 	Range    string
 	Enums    []string   // Name == "enumeration"
+	EnumVals []string   // parallel to Enums when not nil: the written value ("" = none written)
+	Bits     []string   // Name == "bits"
+	BitPos   []string   // parallel to Bits when not nil: the written position ("" = none written)
+	Length   string     // length restriction of a string, in canonical form
 	Path     string     // Name == "leafref"
 	Members  []*TypeRef // Name == "union"
 	Frac     int        // Name == "decimal64"
@@ -195,8 +200,23 @@ func (p *printer) typ(t *TypeRef) {
 	switch t.Name {
 	case "enumeration":
 		p.line("type enumeration {")
-		for _, e := range t.Enums {
-			p.line("  enum %s;", e)
+		for k, e := range t.Enums {
+			if t.EnumVals != nil && t.EnumVals[k] != "" {
+				p.line("  enum %s { value %s; }", e, t.EnumVals[k])
+			} else {
+				p.line("  enum %s;", e)
+			}
+		}
+		p.line("}")
+		return
+	case "bits":
+		p.line("type bits {")
+		for k, e := range t.Bits {
+			if t.BitPos != nil && t.BitPos[k] != "" {
+				p.line("  bit %s { position %s; }", e, t.BitPos[k])
+			} else {
+				p.line("  bit %s;", e)
+			}
 		}
 		p.line("}")
 		return
@@ -216,13 +236,16 @@ func (p *printer) typ(t *TypeRef) {
 		p.line("}")
 		return
 	}
-	if len(t.Patterns) == 0 && t.Range == "" && len(t.Posix) == 0 {
+	if len(t.Patterns) == 0 && t.Range == "" && len(t.Posix) == 0 && t.Length == "" {
 		p.line("type %s;", t.Name)
 		return
 	}
 	p.line("type %s {", t.Name)
 	if t.Range != "" {
 		p.line("  range %q;", t.Range)
+	}
+	if t.Length != "" {
+		p.line("  length %q;", t.Length)
 	}
 	for _, pt := range t.Patterns {
 		p.line("  pattern %q;", pt)
@@ -331,6 +354,9 @@ type TSum struct {
 	Posix    []string // accumulated posix-patterns
 	Range    string   // the range restriction written on the built-in at the bottom of the chain ("" = none)
 	Enums    []string // members of the enumeration the chain ends in
+	EnumMap  map[string]int64 // their values by RFC 7950 9.6.4.2 (nil when the chain does not end in an enumeration)
+	BitMap   map[string]int64 // positions of the bits by 9.7.4.2 (nil when the chain does not end in bits)
+	Length   string           // the length restriction written at the bottom of the chain ("" = none)
 	Path     string   // leafref path
 	Members  []string // base kinds of the union members, in written order
 	Frac     int      // fraction-digits
@@ -533,7 +559,7 @@ func (r *Resolver) instantiate(s *Scope, under *X, placing *Mod, depth int) {
 	}
 }
 
-var builtins = map[string]bool{"string": true, "int8": true, "uint32": true, "boolean": true, "empty": true, "int16": true, "uint8": true, "binary": true, "enumeration": true, "leafref": true, "union": true, "decimal64": true}
+var builtins = map[string]bool{"string": true, "int8": true, "uint32": true, "boolean": true, "empty": true, "int16": true, "uint8": true, "binary": true, "enumeration": true, "bits": true, "leafref": true, "union": true, "decimal64": true}
 
 func (r *Resolver) findTypedef(s *Scope, q string) *Typedef {
 	p, name := splitQ(q)
@@ -574,6 +600,28 @@ func (r *Resolver) findTypedef(s *Scope, q string) *Typedef {
 	return nil
 }
 
+// assign gives every member its written value, or zero for the first member and otherwise one
+// more than the highest value of the members before it (RFC 7950 9.6.4.2, 9.7.4.2). The
+// generator writes only values for which this never overflows and never collides.
+func assign(names, written []string) map[string]int64 {
+	out := map[string]int64{}
+	first, max := true, int64(0)
+	for k, n := range names {
+		var v int64
+		if written != nil && written[k] != "" {
+			v, _ = strconv.ParseInt(written[k], 10, 64)
+		} else if !first {
+			v = max + 1
+		}
+		if first || v > max {
+			max = v
+		}
+		first = false
+		out[n] = v
+	}
+	return out
+}
+
 // ResolveType computes the summary of a type reference.
 func (r *Resolver) ResolveType(t *TypeRef, depth int) *TSum {
 	if depth > 40 {
@@ -581,7 +629,13 @@ func (r *Resolver) ResolveType(t *TypeRef, depth int) *TSum {
 	}
 	var base *TSum
 	if builtins[t.Name] {
-		base = &TSum{Kind: t.Name, Enums: append([]string{}, t.Enums...), Path: t.Path, Frac: t.Frac, Range: t.Range}
+		base = &TSum{Kind: t.Name, Enums: append([]string{}, t.Enums...), Path: t.Path, Frac: t.Frac, Range: t.Range, Length: t.Length}
+		if t.Name == "enumeration" {
+			base.EnumMap = assign(t.Enums, t.EnumVals)
+		}
+		if t.Name == "bits" {
+			base.BitMap = assign(t.Bits, t.BitPos)
+		}
 		for _, m := range t.Members {
 			ms := r.ResolveType(m, depth+1)
 			if ms.Err != "" {
